@@ -15,12 +15,18 @@
      hex   hexIsValid + hexTo  n = octets, v1 = sum, v2 = xor of i * octet[i]
      dec   decIsValid + CLZ, ToU32, Luhn and Damm digits
      b64   b64IsValid + b64To on 4-symbol strings: a, b over 8 representatives, c, d over 1..255
-   IOEnv.GEN_MOD / GEN_REM select a slice of the prefixes (quick tier).                        *)
+   IOEnv.GEN_MOD / GEN_REM select a slice of the second symbols, IOEnv.GEN_R1..R3 (or -1)
+   restrict the first octet to the given tag numbers (a % 32) - quick tier.                     *)
 EXTENDS Codecs, TLC, IOUtils
 
 Fn == IOEnv.GEN_FN
 SliceMod == atoi(IOEnv.GEN_MOD)
 SliceRem == atoi(IOEnv.GEN_REM)
+\* "-1" is written as "n1" in the environment (atoi reads digits only)
+Num(x) == IF x = "n1" THEN -1 ELSE atoi(x)
+R1 == Num(IOEnv.GEN_R1)
+R2 == Num(IOEnv.GEN_R2)
+R3 == Num(IOEnv.GEN_R3)
 
 IsOctetFn == Fn \in {"tl", "size", "oid"}
 Lo == IF IsOctetFn THEN 0 ELSE 1
@@ -53,11 +59,12 @@ Agg(a, b) ==
            x1 == IF b = Lo THEN Step(x2, <<a>>, 0) ELSE x2
        IN IF a = Lo /\ b = Lo THEN Step(x1, <<>>, 0) ELSE x1
 
-ASet == IF Fn = "b64" THEN {B64Rep[i] : i \in 1..8} ELSE Lo..255
+BSet == IF Fn = "b64" THEN {B64Rep[i] : i \in 1..8} ELSE Lo..255
+ASet == {x \in BSet : R1 = -1 \/ (x % 32) \in {R1, R2, R3}}
 InSlice(a, b) == SliceMod = 1 \/ (((a * 256) + b) * 7 + (a \div 16)) % SliceMod = SliceRem
 
 VARIABLES a, b, ph
 Init == a \in ASet /\ b = 0 /\ ph = 0
-Next == \/ ph = 0 /\ ph' = 1 /\ a' = a /\ b' \in {x \in ASet : InSlice(a, x)}
+Next == \/ ph = 0 /\ ph' = 1 /\ a' = a /\ b' \in {x \in BSet : InSlice(a, x)}
         \/ ph = 1 /\ ph' = 2 /\ a' = a /\ b' = b /\ PrintT(<<"@A", a, b, Agg(a, b)>>)
 =============================================================================
